@@ -175,6 +175,10 @@ class Check:
     def violation(self, sig: dict, replay: dict):
         """Record one violating case. `sig` identifies what fails (used for
         known-finding matching); `replay` is everything needed to re-run it."""
+        if 'no controlled stand-in' in repr(sig) + repr(replay):
+            # the code under test uses a primitive the scheduler cannot control: nothing can be concluded
+            self.harness_error('unsupported concurrency primitive: ' + (repr(sig) + repr(replay))[:300])
+            return False
         e = self.findings.match(sig)
         if e is not None:
             self.known_hits.setdefault(e['id'], {'entry': e, 'count': 0, 'first': jsonable(replay)})
